@@ -48,7 +48,7 @@ func main() {
 		},
 		RaceFiles: []string{"/mitm/"},
 		Plan: func(tier string, seed int64) []vh.Batch {
-			bs := []vh.Batch{{Name: "cakinds-0", TimeoutS: 900}, {Name: "direct-0", TimeoutS: 900}, {Name: "proxy-0", TimeoutS: 900}, {Name: "expiry-0", TimeoutS: 900}, {Name: "conc-0", TimeoutS: 900}, {Name: "race-0", Race: true, TimeoutS: 1500}}
+			bs := []vh.Batch{{Name: "many-0", TimeoutS: 900}, {Name: "cakinds-0", TimeoutS: 900}, {Name: "direct-0", TimeoutS: 900}, {Name: "proxy-0", TimeoutS: 900}, {Name: "expiry-0", TimeoutS: 900}, {Name: "conc-0", TimeoutS: 900}, {Name: "race-0", Race: true, TimeoutS: 1500}}
 			if tier == "thorough" {
 				for i := 1; i < 8; i++ {
 					bs = append(bs, vh.Batch{Name: fmt.Sprintf("direct-%d", i), TimeoutS: 900})
@@ -730,6 +730,56 @@ func runHandshakes(r *vh.Run, e *env, batch, path string, n int) {
 	}
 }
 
+// runManyHosts: one Config serves more distinct hosts than any plausible cache
+// bound, then early hosts are named again (and hosts in between revisited):
+// whatever the cache did meanwhile, the certificate presented must be for the
+// host requested now.
+func runManyHosts(r *vh.Run, e *env, batch string) {
+	org := "Many Hosts Org"
+	mc, err := e.config(org, 0)
+	if err != nil {
+		r.Inconclusive("NewConfig failed", err.Error())
+		return
+	}
+	n := r.Pick(1300, 5000)
+	host := func(i int) string { return fmt.Sprintf("host-%d.many.example.test", i) }
+	do := func(i int, phase string) bool {
+		c := hostCase{Kind: "hs", Stream: "c06-" + batch, Idx: i, Path: "direct", Authority: host(i) + ":443", Want: host(i), Class: "dns-lower/no-sni/port", Org: org}
+		if i%2 == 1 {
+			c.SNI, c.Class = host(i), "dns-lower/sni/port"
+		}
+		r.SetCase(c)
+		res := handshakeDirect(mc.TLSForHost(c.Authority), c.SNI)
+		r.Eval(1)
+		ok, _ := judge(r, e, c, res)
+		if ok {
+			r.Count("many_hosts_"+phase, 1)
+		}
+		return ok
+	}
+	r.Case(map[string]interface{}{"kind": "many-hosts", "hosts": n})
+	bad := 0
+	for i := 0; i < n && bad < 5; i++ {
+		if !do(i, "first") {
+			bad++
+		}
+		// keep revisiting older hosts while the set grows
+		if i%97 == 96 {
+			if !do(i/2, "revisit") {
+				bad++
+			}
+		}
+	}
+	for _, i := range []int{0, 1, 2, 3, 10, 100, 500, 1023, 1024, 1025, n - 1, 0} {
+		if i < n && !do(i, "revisit") {
+			bad++
+		}
+	}
+	if bad == 0 {
+		r.Class(fmt.Sprintf("direct|many-hosts|n>%d|revisit", n/1000*1000))
+	}
+}
+
 func runExpiry(r *vh.Run, e *env, batch string) {
 	n := r.Pick(3, 8)
 	org := "Expiry Org"
@@ -931,6 +981,8 @@ func run(r *vh.Run, batch string) {
 		runHandshakes(r, e, batch, "proxy", r.Pick(40, 150))
 	case strings.HasPrefix(batch, "expiry-"):
 		runExpiry(r, e, batch)
+	case strings.HasPrefix(batch, "many-"):
+		runManyHosts(r, e, batch)
 	case strings.HasPrefix(batch, "conc-"):
 		runConcurrent(r, e, batch, r.Pick(6, 30))
 	case strings.HasPrefix(batch, "race-"):
